@@ -22,6 +22,8 @@ necessary to account for:
     may also differ.
 """
 
+from tangelo.linq import Gate
+
 
 def get_qdk_gates():
     """Map gate name of the abstract format to the equivalent gate name used in
@@ -85,7 +87,8 @@ def translate_c_to_qsharp(source_circuit, operation="MyQsharpOperation", save_me
             for i, c in enumerate(gate.control):
                 control_string += f'qreg[{c}]]' if i == num_controls - 1 else f'qreg[{c}], '
             if num_controls > 1 and gate.name == 'CNOT':
-                gate.name = 'CX'
+                # Multi-controlled CNOT is handled as CX. Use a renamed copy: the source circuit must not be modified.
+                gate = Gate('CX', gate.target, gate.control, gate.parameter, gate.is_variational)
 
         if gate.name in {"H", "X", "Y", "Z", "S", "T"}:
             body_str += f"\t\t{GATE_QDK[gate.name]}(qreg[{gate.target[0]}]);\n"
